@@ -16,7 +16,7 @@ RULE = ("sequences of Set/Modify/DeleteAttribute in both forms (1.x name+index; 
 PROFILE = {"ops": {"create": 6, "register": 7, "createKeyPair": 1, "setAttribute": 9, "modifyAttribute": 14,
                    "deleteAttribute": 14, "getAttributes": 4, "getAttributeList": 1, "activate": 1, "revoke": 1, "get": 1,
                    "destroy": 1, "locate": 1},
-           "groups": 0.05, "restart": 0.02, "attr_focus": True}
+           "groups": 0.05, "restart": 0.02, "attr_focus": True, "twins": 0.15}
 MONITORS = [M.mon_c15]
 
 
